@@ -248,7 +248,7 @@ def run_exidx(ch):
     img = eg.Img(32, le, machine=40, etype=ch.pick('e_type', [3, 2]), seed=SEED)
     o = img.f.o
     count = ch.pick('entries', [3, 1, 0, 8])
-    kind0 = ch.pick('probe.kind', ['inline', 'cantunwind', 'table0', 'table1_0', 'table1_1', 'table1_3', 'table2_0', 'table2_2', 'table1_4', 'table2_5', 'generic', 'corrupt_bit31',
+    kind0 = ch.pick('probe.kind', ['inline', 'cantunwind', 'table0', 'table1_0', 'table1_1', 'table1_3', 'table2_0', 'table2_2', 'table1_4', 'table2_5', 'table1_128', 'table2_255', 'generic', 'corrupt_bit31',
                                    'corrupt_inline_index', 'corrupt_table_index3', 'corrupt_table_bits', 'corrupt_table_index_7f', 'corrupt_table_index4', 'corrupt_inline_index8'])
     disp = ch.pick('probe.displacement', ['small_neg', 'small_pos', 'zero', 'near_2^26_pos', 'near_2^26_neg', 'bit26_only_pos', 'large_pos', 'large_neg'])
     generic_disp = ch.pick('generic.personality_displacement', ['small_neg', 'pos', 'bit26'])
@@ -264,7 +264,7 @@ def run_exidx(ch):
     BC = {'typical': [0x9b, 0x84, 0x80, 0xb0, 0xb0, 0xa8, 0x01, 0xb1, 0x0f, 0xb0, 0xb0, 0xb0, 0xb0, 0xb0],
           'finish_only': [0xb0] * 14, 'uleb_vsp': [0xb2, 0x81, 0x01, 0xb0, 0xb2, 0x05, 0xb0, 0xb0, 0xb0, 0xb0, 0xb0, 0xb0, 0xb0, 0xb0],
           'all_ff': [0xff] * 14, 'zeros': [0] * 14}[bc_variant]
-    BC = BC + [0xb0] * 8
+    BC = BC + [0xb0] * (8 + 4 * 255)        # the additional-word count is a full byte: up to 255 words
     kinds = [kind0] + (['inline', 'table1_1', 'cantunwind', 'generic', 'table0', 'table2_2', 'inline'] if later == 'one_function' else
                        ['inline', 'inline', 'cantunwind', 'cantunwind', 'table1_1', 'table1_1', 'inline'])[: max(0, count - 1)]
     kinds = kinds[:count]
